@@ -38,12 +38,14 @@ def shard_main(mod, tier, seed, shard, nshards, out):
             common.run_enum_part(mod, part, gen, shard, nshards, stats, found, exclude)
             if exhaustive and part not in stats.exhaustive_parts:
                 stats.exhaustive_parts.append(part)
-        for k, (part, strat, n) in enumerate(mod.strategies(tier)):
+        for k, spec in enumerate(mod.strategies(tier)):
+            part, strat, n = spec[:3]
+            opts = spec[3] if len(spec) > 3 else {}
             per = n // nshards + (1 if shard < n % nshards else 0)
             if per <= 0:
                 continue
             common.run_hyp_part(mod, part, strat, per, seed * 1000 + shard + 100003 * k, stats, found, exclude,
-                                shrink=True)
+                                shrink=opts.get("shrink", True))
     except HarnessError as e:
         err = "HarnessError: %s" % e
     except BaseException as e:  # noqa
